@@ -155,6 +155,7 @@ def run_fabric(chk):
         chk.notes.append("fabric part not available in this build")
         return
     simnet.c11(chk)
+    simnet.c11_raw(chk)
 
 
 def replay(chk, path):
